@@ -299,7 +299,17 @@ class Check(FormulaCheck):
         # shuffled: a result that depends on what this process evaluated before (a poisoned memo) shows as a wrong numeral
         order = list(range(spec['lo'], spec['hi']))
         self.rng(spec).shuffle(order)
+        rnd0 = self.rng(spec, 'odd-forms')
+        # what the process asked ROMAN before must not matter: half of the shards open with calls whose form is fractional, a logical, numeric
+        # text or out of range (whatever they answer), and such calls keep being interleaved
+        odd_forms = [0.5, 1.5, 2.5, 3.5, 3.999, 0.001, True, False, '2', 4.0, 5, -1, 4.5]
+        if (spec['lo'] // max(1, spec['hi'] - spec['lo'])) % 2 == 0:
+            for of in odd_forms:
+                self.ev('ROMAN(v_n,v_f)', v_n=rnd0.choice([499, 1999, 45, 3999]), v_f=of)
+            rec.count('roman_shards_opened_with_odd_forms')
         for n in order:
+            if rnd0.random() < 0.05:
+                self.ev('ROMAN(v_n,v_f)', v_n=n, v_f=rnd0.choice(odd_forms))
             for form in self.rng(spec, n).sample(range(5), 5):
                 r = self.ev('ROMAN(v_n,v_f)', v_n=n, v_f=form)
                 ok = isinstance(r, str) and not self.is_err(r) and r != '' and all(c in ROMANV for c in r) and roman_value(r) == n
